@@ -177,10 +177,14 @@ func (its *TransactionDatatype) EndTransaction(txCtx *TransactionContext, withOp
 
 func (its *TransactionDatatype) unlock() {
 	if its.isLocked {
+		// isLocked is cleared first: BeginTransaction takes `isLocked && txCtx == <caller's ctx>` as
+		// "the caller owns the transaction". With txCtx already nil and isLocked still true, a goroutine
+		// arriving with a nil context passed that test, ran without the mutex and used the nil txCtx;
+		// clearing isLocked after Unlock could also wipe the flag of the goroutine that got the mutex next.
+		its.isLocked = false
 		its.txCtx = nil
 		its.success = true
 		its.mutex.Unlock()
-		its.isLocked = false
 	}
 }
 
